@@ -852,8 +852,8 @@ func c11Run(ctx *runCtx) int {
 			batch{Spec: "exh:4:256:1", Timeout: 5 * time.Minute},
 			batch{Spec: "oversize", Timeout: time.Minute},
 		)
-		for i := 0; i < 8; i++ {
-			batches = append(batches, batch{Spec: fmt.Sprintf("rnd:%d:2500:200:2000", seed*1000+int64(i)+10), Timeout: 20 * time.Minute})
+		for i := 0; i < 6; i++ {
+			batches = append(batches, batch{Spec: fmt.Sprintf("rnd:%d:500:200:1200", seed*1000+int64(i)+10), Timeout: 20 * time.Minute})
 		}
 		// the same random workload under the race detector (checkptr on)
 		batches = append(batches, batch{Spec: fmt.Sprintf("rnd:%d:300:100:600", seed*1000+99), Timeout: 20 * time.Minute, Race: true})
